@@ -1153,6 +1153,46 @@ func (h *supH) directedReplicatedDependent(emit func(string)) {
 	}
 }
 
+// directedCompletedDependentShutdown: ordered shutdown where the dependent waited for its dependency
+// to *complete* (process_completed / process_completed_successfully): `d` ends, `a` is launched, `d` is
+// started again by a request; both are running when the shutdown begins and `a` is slow to die, so
+// `d` may be signalled only after `a` has gone.
+func (h *supH) directedCompletedDependentShutdown(emit func(string)) {
+	for _, cond := range []string{"c", "s"} {
+		emit("sup coarse 1")
+		emit("proc d no 0 - 0 0 0 -")
+		emit(fmt.Sprintf("proc a no 0 - 40 0 ign d:%s", cond))
+		emit("deps a d:" + cond)
+		emit("init")
+		emit("s call 0 run")
+		h.drain(emit)
+		emit("s exit d 0")
+		h.drain(emit)
+		emit("s call 1 start d")
+		h.drain(emit)
+		emit("s call 2 shutdown")
+		h.drain(emit)
+		for i := 0; i < 8 && !h.dead; i++ {
+			if h.killArmed("a") {
+				emit("s killto a")
+				h.drain(emit)
+				continue
+			}
+			al := h.aliveNames()
+			if len(al) == 0 {
+				break
+			}
+			emit(fmt.Sprintf("s exit %s 0", al[0]))
+			h.drain(emit)
+		}
+		if len(h.aliveNames()) == 0 && len(h.enabledKeys()) == 0 {
+			emit("end quiescent")
+		} else {
+			emit("end limit")
+		}
+	}
+}
+
 // directedRestartNotRunning: a restart request on a process that is registered but has no command at
 // the moment — it waits for a dependency, or it sits in the back-off before a relaunch. The instance
 // that was replaced must not launch anything later (when the dependency ends / the back-off elapses).
@@ -1402,6 +1442,7 @@ func (h *supH) Gen(r *rand.Rand, tier string, emit func(string)) {
 	h.directedRestartedDependency(emit)
 	h.directedLateLookup(emit)
 	h.directedReplicatedDependent(emit)
+	h.directedCompletedDependentShutdown(emit)
 	h.directedRestartNotRunning(emit)
 	h.directedExit(emit)
 	h.directedStopThenShutdown(emit)
